@@ -17,7 +17,7 @@
 #ifndef V_LIST_MAX
 #define V_LIST_MAX 3
 #endif
-static inline probe_t *v_nx(probe_t *p) { return p ? (probe_t *)p->nextProbe : (probe_t *)0; }
+#define v_nx(p_) ((p_) ? (probe_t *)(p_)->nextProbe : (probe_t *)0)
 #define v_n0(p) (p)
 #define v_n1(p) v_nx(v_n0(p))
 #define v_n2(p) v_nx(v_n1(p))
@@ -36,9 +36,7 @@ static inline probe_t *v_nth(probe_t *p, unsigned k) {
            k == 5 ? v_n5(p) : k == 6 ? v_n6(p) : v_n7(p);
 }
 /* observation key: (Ethernet source, real source) */
-static inline bool v_obs_same_key(const probe_t *a, const probe_t *b) {
-    return v_mac_eq(a->sourceAddr.a, b->sourceAddr.a) && v_mac_eq(a->realSourceAddr.a, b->realSourceAddr.a);
-}
+#define v_obs_same_key(x_, y_) (v_mac_eq((x_)->sourceAddr.a, (y_)->sourceAddr.a) && v_mac_eq((x_)->realSourceAddr.a, (y_)->realSourceAddr.a))
 
 /* ---- representation invariant of the per-interface record ------------------------------------- */
 /* every node of the list is a live object of its own (stated explicitly: implicit pointer checks are generated for
@@ -120,7 +118,7 @@ __CPROVER_ensures(C06_EMIT_BOUND(__CPROVER_old(g_led.tx_attempts), __CPROVER_old
 #else
 #define V_SEE_MAX LLTD_SEE_LIST_MAX
 #endif
-static inline bool v_pair_ok(const probe_t *a, const probe_t *b) { return !a || !b || !v_obs_same_key(a, b); }
+#define v_pair_ok(x_, y_) (!(x_) || !(y_) || !v_obs_same_key((x_), (y_)))
 /* no observation twice: keys pairwise distinct (lists of at most 6 nodes) */
 static inline bool v_list_unique(probe_t *h) {
     probe_t *a0 = h, *a1 = v_nx(a0), *a2 = v_nx(a1), *a3 = v_nx(a2), *a4 = v_nx(a3), *a5 = v_nx(a4);
@@ -129,9 +127,7 @@ static inline bool v_list_unique(probe_t *h) {
            v_pair_ok(a2, a3) && v_pair_ok(a2, a4) && v_pair_ok(a2, a5) &&
            v_pair_ok(a3, a4) && v_pair_ok(a3, a5) && v_pair_ok(a4, a5);
 }
-static inline bool v_key_is(const probe_t *a, const uint8_t *eth_src, const uint8_t *real_src) {
-    return a && v_mac_eq(a->sourceAddr.a, eth_src) && v_mac_eq(a->realSourceAddr.a, real_src);
-}
+#define v_key_is(x_, es_, rs_) ((x_) && v_mac_eq((x_)->sourceAddr.a, (es_)) && v_mac_eq((x_)->realSourceAddr.a, (rs_)))
 static inline bool v_list_has_key(probe_t *h, const uint8_t *eth_src, const uint8_t *real_src) {
     probe_t *a0 = h, *a1 = v_nx(a0), *a2 = v_nx(a1), *a3 = v_nx(a2), *a4 = v_nx(a3), *a5 = v_nx(a4);
     return v_key_is(a0, eth_src, real_src) || v_key_is(a1, eth_src, real_src) || v_key_is(a2, eth_src, real_src) ||
@@ -183,6 +179,11 @@ __CPROVER_ensures(ST_WF(st)) /*@C07.probe-wf C19.probe-wf*/
 #define LIST_TARGETS(h) \
     HAS1(h): __CPROVER_object_whole(h); HAS2(h): __CPROVER_object_whole(P1(h)); HAS3(h): __CPROVER_object_whole(P2(h)); \
     HAS4(h): __CPROVER_object_whole(P3(h)); HAS5(h): __CPROVER_object_whole(P4(h)); HAS6(h): __CPROVER_object_whole(P5(h))
+#define LIST_TARGETS_C(c, h) \
+    (c) && HAS1(h): __CPROVER_object_whole(h); (c) && HAS2(h): __CPROVER_object_whole(P1(h)); (c) && HAS3(h): __CPROVER_object_whole(P2(h)); \
+    (c) && HAS4(h): __CPROVER_object_whole(P3(h)); (c) && HAS5(h): __CPROVER_object_whole(P4(h)); (c) && HAS6(h): __CPROVER_object_whole(P5(h))
+#define LIST_FREES_C(c, h) \
+    (c) && HAS1(h): (h); (c) && HAS2(h): P1(h); (c) && HAS3(h): P2(h); (c) && HAS4(h): P3(h); (c) && HAS5(h): P4(h); (c) && HAS6(h): P5(h)
 #define LIST_FREES(h) \
     HAS1(h): (h); HAS2(h): P1(h); HAS3(h): P2(h); HAS4(h): P3(h); HAS5(h): P4(h); HAS6(h): P5(h)
 
@@ -246,6 +247,51 @@ __CPROVER_ensures(C08_SEQ0(st, inFrame, __CPROVER_old(st->mapper_seq), __CPROVER
 __CPROVER_ensures(C08_QLT_STATE(st, inFrame, __CPROVER_old(st->mapper_known), __CPROVER_old(st->mapper_real), __CPROVER_old(st->mapper_apparent))) /*@C08.qlt-state C05.qlt-state*/
 __CPROVER_ensures(C08_QLT_LEDGER(st, __CPROVER_old(g_led.tx_attempts), __CPROVER_old(g_led.live), __CPROVER_old(st->small_icon))) /*@C08.qlt-ledger C19.qlt-ledger C02.qlt-single*/
 __CPROVER_ensures(ST_SHAPE(st)) /*@C08.qlt-wf C19.qlt-wf*/
+;
+
+
+/* =============================== C03 / C05: answerHello (contract used by parseFrame) ============= */
+#define GEN_SLOT(st, tos)   ((tos) == 1 ? (st)->mapper_gen_quick : (st)->mapper_gen_topology)
+/* established by parseFrame's Discover pre-step: the sender is (or becomes) the active mapper and the generation
+ * stored for the frame's service is that very frame's */
+#define PRE_answerHello(st, f) \
+    ((st)->mapper_known == 1 && v_mac_eq((st)->mapper_real.a, (const uint8_t *)(f) + 24) && \
+     GEN_SLOT(st, ((const uint8_t *)(f))[15]) == v_be16((const uint8_t *)(f) + 32))
+#define C03_HELLO_LEDGER(tx0, h0, live0, allocs0) \
+    (g_led.tx_attempts == (tx0) + (V_ALLOC_OK(allocs0, 0) ? 1u : 0u) && g_led.tx_op[1] == (h0) + (V_ALLOC_OK(allocs0, 0) ? 1u : 0u) && \
+     g_led.live == (live0) && g_led.allocs == (allocs0) + 1u)
+#define C03_HELLO_STATE(st, f, real0, app0, gt0, gq0) \
+    ((st)->mapper_known == 1 && v_mac_eq((st)->mapper_real.a, (real0).a) && v_mac_eq((st)->mapper_apparent.a, (app0).a) && \
+     (st)->mapper_gen_topology == (gt0) && (st)->mapper_gen_quick == (gq0))
+
+static void answerHello(void *inFrame, lltd_iface_state *st, void *iface_ctx)
+__CPROVER_requires(PRE_frame(inFrame) && ST_SHAPE(st))
+__CPROVER_requires(PRE_answerHello(st, inFrame)) /*@C03.accepted-discover-state C05.accepted-discover-state*/
+__CPROVER_requires(iface_ctx == g_ctx) /*@C17.ctx-passed*/
+__CPROVER_assigns(g_led, st->mapper_seq, st->mapper_real, st->mapper_apparent, st->mapper_known, st->mapper_gen_topology, st->mapper_gen_quick)
+__CPROVER_ensures(C03_HELLO_LEDGER(__CPROVER_old(g_led.tx_attempts), __CPROVER_old(g_led.tx_op[1]), __CPROVER_old(g_led.live), __CPROVER_old(g_led.allocs))) /*@C03.exactly-one-hello C19.hello-ledger C02.hello-single*/
+__CPROVER_ensures(C03_HELLO_STATE(st, inFrame, __CPROVER_old(st->mapper_real), __CPROVER_old(st->mapper_apparent), __CPROVER_old(st->mapper_gen_topology), __CPROVER_old(st->mapper_gen_quick))) /*@C03.hello-state C05.hello-state*/
+__CPROVER_ensures(st->mapper_seq == v_be16((const uint8_t *)inFrame + 30)) /*@C03.hello-seq*/
+;
+
+
+/* =============================== C17 / C05 / C09: parseFrame ====================================== */
+/* ghost: the record of the interface the frame arrived on (NULL before that interface's first frame) */
+static lltd_iface_state *g_st;
+/* Frame condition (C17): parseFrame may write the ledger, the record of ITS interface, that record's observation
+ * nodes and cached icon - and nothing else.  In particular NOT the global list head g_iface_states, which every
+ * receive thread shares without synchronisation, and no other interface's record. */
+void parseFrame(void *frame, void *iface_ctx)
+__CPROVER_requires(frame == NULL || PRE_frame(frame))
+__CPROVER_requires(iface_ctx == g_ctx)
+__CPROVER_requires(g_st == NULL || ST_WF(g_st))
+__CPROVER_assigns(g_led)
+__CPROVER_assigns(g_st != NULL: *g_st)
+__CPROVER_assigns(LIST_TARGETS_C(g_st != NULL, g_st->see_list))
+__CPROVER_assigns(g_st != NULL && g_st->small_icon != NULL: __CPROVER_object_whole(g_st->small_icon))
+__CPROVER_frees(LIST_FREES_C(g_st != NULL, g_st->see_list))
+__CPROVER_frees(g_st != NULL && g_st->small_icon != NULL: g_st->small_icon)
+__CPROVER_ensures(g_st == NULL || ST_SHAPE(g_st)) /*@C19.wf-preserved C07.wf-preserved*/
 ;
 
 #include "v_nocheck_pop.h"
